@@ -2,6 +2,8 @@ SPECIFICATION Spec
 CONSTANTS
   NS = {0, 1, 2}
   Extra = 2
+  Extra3 = 0
+  Yields3 = "edge"
   Sample3 = 0
   Sample4 = 0
   Seed = 1
